@@ -7,6 +7,8 @@ const NTOK: usize = 1 << 20;
 static mut STATE: [u8; NTOK] = [0; NTOK]; // 0 never, 1 live, 2 destroyed
 static NEXT: AtomicU64 = AtomicU64::new(0);
 static CLONE_PANIC: AtomicBool = AtomicBool::new(false);
+/// the token whose destructor panics (after being logged); u64::MAX: none
+static DROP_PANIC: AtomicU64 = AtomicU64::new(u64::MAX);
 const MAGIC: u64 = 0x70CE_A11F_E5A5_5A5A;
 
 pub fn reset() {
@@ -18,6 +20,11 @@ pub fn reset() {
     }
     NEXT.store(0, SeqCst);
     CLONE_PANIC.store(false, SeqCst);
+    DROP_PANIC.store(u64::MAX, SeqCst);
+}
+
+pub fn set_drop_panic(id: u64) {
+    DROP_PANIC.store(id, SeqCst);
 }
 
 pub fn set_clone_panic(b: bool) {
@@ -44,6 +51,10 @@ fn destroy(id: u64, magic_ok: bool, magic: u64) {
             STATE[id as usize] = 2;
         }
         talloc::push(Ev::Dtor { id });
+        if DROP_PANIC.load(SeqCst) == id && !std::thread::panicking() {
+            DROP_PANIC.store(u64::MAX, SeqCst);
+            panic!("scheduled panic in Drop::drop");
+        }
     } else {
         talloc::push_always(Ev::BadDtor { id, magic });
     }
